@@ -291,6 +291,8 @@ def run(ctx):
     r4 = ctx.rule("R4", "`gwf info` reports the graph's own relations under the right labels", min_instances=5)
     rule_info(ctx, r4)
     from .evalhelpers import cached_witness, report_witness, info_command_witness, workflow_api_witness
+    from .shared import rule_targets_argument
+    rule_targets_argument(ctx, r4, "gwf.plugins.info:info", "`gwf info [NAMES]`")
     report_witness(r4, "src/gwf/plugins/info.py::info::witness-project", "src/gwf/plugins/info.py:1", cached_witness(ctx, "info-cmd", info_command_witness),
                    "`gwf info`, `gwf info NAME` and a pattern matching nothing report exactly the (selected) targets with the graph's dependencies and dependents")
     # "resolved against B's working directory": the directory a target resolves its paths against is the template's own when it declares one, else the workflow's
